@@ -48,6 +48,9 @@
              | (5 r cid)                      merge, fast-forward
              | (6 (pobj ...) ((r cid force) ...))   fetch: receive the packfile objects, then save refs
              | (7)                            prune
+             | (8 (pobj ...) ((r cid force) ...))   fetch, same model; the Go side runs the exported
+                                              fetch.Fetch against the in-process reference server
+                                              (the object list is the generator's prediction)
       case   = (universe setup op op2 flags)   universe: ignored by the model (row-level
                description of the tables for the Go side); setup = ((op (n)?) ...) run to completion
                or crashed after n writes; op = the operation under test; op2 = the same operation as
@@ -663,7 +666,7 @@ Definition d_op (t : tree) : op :=
   | 3 => OMergeCommit (d_N (d_nth 1 t)) (d_list d_cid (d_nth 2 t)) (d_table (d_nth 3 t)) (d_N (d_nth 4 t))
   | 4 => OMergeNoFF (d_N (d_nth 1 t)) (d_cid (d_nth 2 t)) (d_N (d_nth 3 t))
   | 5 => OMergeFF (d_N (d_nth 1 t)) (d_cid (d_nth 2 t))
-  | 6 => OFetch (d_list d_pobj (d_nth 1 t)) (d_list d_upd (d_nth 2 t))
+  | 6 | 8 => OFetch (d_list d_pobj (d_nth 1 t)) (d_list d_upd (d_nth 2 t))
   | _ => OPrune
   end.
 
